@@ -113,6 +113,24 @@ def _positions(rnd, cols):
     return cols
 
 
+def _extras(rnd, cols, names, n):
+    """n further columns the reader has to ignore, named LIKE known columns (relhumid_tmin, tmax_2, xwind, TMIN2 ...), before and
+    after the real ones: a header name is a column only when it EQUALS a known name"""
+    cols = list(cols)
+    known = [v for k, v in names.items() if k != "co2"]
+    for _ in range(n):
+        base = rnd.choice(known)
+        variant = rnd.choice(["%s_%s" % (rnd.choice(known).strip("@"), base.strip("@")), "%s_%s" % (base.strip("@"), rnd.choice(["2", "max", "min", "sum"])),
+                              base.strip("@") + "2", "x" + base.strip("@"), "extra%d" % rnd.randrange(9)])
+        if variant in names.values() or ("x:" + variant) in cols:
+            continue
+        real = [i for i, x in enumerate(cols) if names.get(x) == base]
+        r = rnd.random()
+        pos = real[0] if (real and r < 0.45) else (rnd.randrange(0, len(cols) + 1) if r < 0.8 else len(cols))
+        cols.insert(pos, "x:" + variant)
+    return cols
+
+
 def make_file(rnd, layout, idx):
     none = rnd.choice(["-99", "-99.9", "-999", "999.9"])
     year = rnd.choice([1979, 1980, 1983, 1984, 1999, 2000, 2011, 2012])
@@ -200,18 +218,19 @@ def make_file(rnd, layout, idx):
             cols.insert(rnd.randrange(1, len(cols) + 1), "verd")
         cols = _positions(rnd, cols)
         extra = rnd.choice([0, 0, 1, 3])
+        cols = _extras(rnd, cols, CSV_NAMES, extra)
         sep = rnd.choice([",", ",", ";", "\t"])
         nh = rnd.choice([1, 2, 2, 3])
-        names = [CSV_NAMES[x] for x in cols] + ["extra%d" % k for k in range(extra)]
+        names = [CSV_NAMES[x] if x in CSV_NAMES else x[2:] for x in cols]
         if rnd.random() < 0.05:
-            names[rnd.randrange(1, len(cols))] = "unknown_name"                     # a required column is missing
+            names[rnd.choice([i for i, x in enumerate(cols) if not x.startswith("x:")])] = "unknown_name"                     # a required column is missing
             c["unknown_col"] = True
         hdr = [sep.join(names), sep.join(["-"] * len(names)), rnd.choice(["55;2;-----", "73,10,390", "40;3"]), "# more"]
         lines = hdr[:nh]
         body = []
         mi = rnd.randrange(0, n) if mutk else -1
         for k, (d, r) in enumerate(ser):
-            toks = [d.isoformat() if x == "date" else r[x] for x in cols] + [_num(rnd, 0, 9) for _ in range(extra)]
+            toks = [d.isoformat() if x == "date" else (_num(rnd, 0, 99) if x.startswith("x:") else r[x]) for x in cols]
             if k == mi:
                 c["mut_date"], c["mut_rec"] = d, r
                 body.append(mutate(rnd, toks, mutk, sep, [i for i, x in enumerate(cols) if x != "date"]))
@@ -238,16 +257,17 @@ def make_file(rnd, layout, idx):
         if rnd.random() < 0.2:
             cols.insert(rnd.randrange(1, len(cols) + 1), "sund")
         cols = _positions(rnd, cols)
+        cols = _extras(rnd, cols, CZ_NAMES, rnd.choice([0, 0, 1, 2]))
         with_co2 = rnd.random() < 0.5
         sep = rnd.choice(["  ", " ", "\t", ";"])
         nh = rnd.choice([1, 1, 2])
-        names = [CZ_NAMES[x] for x in cols] + (["CO2"] if with_co2 else [])
+        names = [CZ_NAMES[x] if x in CZ_NAMES else x[2:] for x in cols] + (["CO2"] if with_co2 else [])
         hdr = [("   ".join(names)) if sep.strip() == "" else sep.join(names), "# more"]
         lines = hdr[:nh]
         body = []
         mi = rnd.randrange(0, n) if mutk else -1
         for k, (d, r) in enumerate(ser):
-            toks = ["%04d%03d" % (d.year, doy(d)) if x == "date" else r[x] for x in cols]
+            toks = ["%04d%03d" % (d.year, doy(d)) if x == "date" else (_num(rnd, 0, 99) if x.startswith("x:") else r[x]) for x in cols]
             if with_co2 and (k == 0 or rnd.random() < 0.3):
                 toks.append(rnd.choice(["350", "361.5", "400"]))
             if k == mi:
